@@ -2,6 +2,8 @@
    TLS/x509 are represented by their acceptance conditions (Cfg/TlsCfg.v: client_accepts, server_accepts). *)
 From Coq Require Import List NArith ZArith Bool.
 From SA Require Import Base.Tok Cfg.TlsCfg.
+From SA Require Gen.Shapes2.
+From Coq Require Import String.
 Import ListNotations.
 
 Definition uses_tls (k : carrier) (sc : scert) : bool := carrier_tls k || match sc with SNone => false | _ => true end.
@@ -58,3 +60,11 @@ Proof. intros [b|]; cbn; split; intros H; try discriminate; reflexivity. Qed.
 Example c05_nonvacuous : connect StartTlsSocket SGood false CNone false true = Session true
   /\ connect TlsSocket SWrongHost false CNone false false = ConnectErr.
 Proof. split; reflexivity. Qed.
+
+(* Every server kind hands its own ServerConfig - the one whose GetTlsConfig sets the client-certificate requirement - to the
+   connection handler (server_cfg above models exactly that method). *)
+Theorem c05_tls_manager_facts :
+  Gen.Shapes2.socket_server_tls_manager = "&st.ServerConfig"%string /\ Gen.Shapes2.packet_server_tls_manager = "&st.ServerConfig"%string /\
+  Gen.Shapes2.http_server_tls_manager = "&ws.ServerConfig"%string /\ Gen.Shapes2.io_server_tls_manager = "&st.ServerConfig"%string.
+Proof. repeat split; reflexivity. Qed.
+Print Assumptions c05_tls_manager_facts.
